@@ -458,6 +458,8 @@ class SpaceImpl:
                     got = []
                     comp = m["make_mpl_space_component"](None if default else self.portrayal, post_process=got.append)
                     render_once(comp(self.model))
+                    if len(got) != 1:
+                        raise ValueError(f"post_process called {len(got)} times for one draw")
                     ax = got[0]
                 else:
                     m["draw_space"](self.space, self.portrayal, ax=ax, **kwargs)
@@ -583,6 +585,8 @@ class SpaceImpl:
                     comp = m["make_altair_space"](None if default else self.portrayal, None,
                                                   post_process=lambda ch: (got.append(ch), ch)[1])
                     render_once(comp(self.model))
+                    if len(got) != 1:
+                        raise ValueError(f"post_process called {len(got)} times for one draw")
                     chart = got[0]
                 else:
                     chart = m["_draw_grid"](self.space, self.portrayal)
